@@ -12,7 +12,7 @@ from .. import Config
 from .. import schema as oai
 from ..utils import PythonIdentifier
 from .errors import ParseError, PropertyError
-from .properties import AnyProperty, Property, Schemas, property_from_data
+from .properties import AnyProperty, FileProperty, Property, Schemas, property_from_data
 
 
 class _ResponseSource(TypedDict):
@@ -150,5 +150,8 @@ def response_from_data(  # noqa: PLR0911
 
     if isinstance(prop, PropertyError):
         return prop, schemas
+
+    if isinstance(prop, FileProperty):  # A binary payload is the raw bytes of the body, whatever the media type
+        source = BYTES_SOURCE
 
     return Response(status_code=status_code, prop=prop, source=source, data=data), schemas
